@@ -107,6 +107,7 @@ class Drv:
                 raise BrokenPipeError()
 
     def close(self):
+        self.stderr_text = ""
         if self.p.poll() is None:
             try:
                 self.p.stdin.write('{"op":"quit"}\n')
